@@ -72,3 +72,7 @@ def relevant_table(path):
     if et == "DYN":
         return tabs.get(".dynsym", [])
     return tabs.get(".symtab") or tabs.get(".dynsym", [])
+
+
+def elf_id(s):
+    return s.name + (("@@" if s.default else "@") + s.version if s.version else "")
